@@ -149,7 +149,36 @@ def value_of(spec, var, idx_by_dim):
     flat = flat_canonical(spec, var, idx_by_dim)
     if flat in _nan_set(var):
         return None
+    if var.get("floor") is not None and not is_wet(spec, var, idx_by_dim):
+        return None
     return 1000 * (var_number(spec, var) + 1) + flat + spec.get("code_offset", 0)
+
+
+def depth_coordinate_spec(spec, name):
+    for dc in spec.get("depths") or []:
+        if dc["name"] == name:
+            return dc
+    raise KeyError(name)
+
+
+def levels_shallow_to_deep(dc):
+    """Level indexes of a depth coordinate ordered by physical depth below the surface."""
+    sign = 1 if dc.get("positive") == "down" else -1
+    return sorted(range(len(dc["values"])), key=lambda q: sign * dc["values"][q])
+
+
+def is_wet(spec, var, idx_by_dim):
+    """Static sea floor: in every water column the ``wet`` shallowest levels hold data."""
+    dc = depth_coordinate_spec(spec, var["floor"])
+    order = levels_shallow_to_deep(dc)
+    rank = order.index(idx_by_dim[dc["dim"]])
+    kind = var["kind"]
+    gd = grid_dims(spec)[kind]
+    shape = grid_shapes(spec)[kind]
+    lin = 0
+    for d, n in zip(gd, shape):
+        lin = lin * n + idx_by_dim[d]
+    return rank < spec["floors"][var["floor"]][kind][lin]
 
 
 _nan_cache = {}
